@@ -66,6 +66,7 @@ class TimedTransport(SimTransport):
         self.owners = []          # thread name of every transport call that reached the device
         self.delayed = False
         self.closers = []         # names of the caller threads that closed the transport (= whose timeout fired), in order
+        self.late_timer, self.late_delivered = None, False
 
     def arm(self, mode):
         self.mode, self.armed = mode, False
@@ -93,7 +94,11 @@ class TimedTransport(SimTransport):
                 SimTransport.write(self, channel_input)
                 self.silent = False
                 self.delayed = True
-                threading.Timer(delay, lambda: self.buf.extend(late)).start()
+                def deliver():
+                    self.buf.extend(late)
+                    self.late_delivered = True
+                self.late_timer = threading.Timer(delay, deliver)
+                self.late_timer.start()
                 return
             self.silent, self.armed, self.mode = True, False, None
         self.owners.append(threading.current_thread().name)
@@ -225,6 +230,24 @@ def late_scenario(sc, conn, t, lock, out):
     out["hung"] = report(hung, t_h)
     out["at_exception"] = hung.snapshot
     nxt_spec = ["si", "show c1o0"]
+    if not t.isalive():
+        # default settings: the timeout handler closed the connection (correct); the user re-opens it before going on.  The old
+        # session's pending answer belongs to the old session: it is dropped, not delivered into the new one.
+        if t.late_timer is not None:
+            t.late_timer.cancel()
+        t.silent = False
+        t.device = CliDevice("cisco_iosxe", hostname="r1", outputs=lambda mode, line: ("out<%s>" % line) if line else None)
+        t.buf.clear()
+        t.open()
+        t.buf.clear()
+        out["reopened"] = True
+    else:
+        # connection kept (NO_TERMINATE_ON_TIMEOUT): let the late answer arrive first, so that what the next operation sees does
+        # not depend on how fast it runs (it then either finds the answer unread — clean asyncio — or already consumed)
+        lim = time.time() + sc["a_delay"] + slack
+        while time.time() < lim and not t.late_delivered:
+            time.sleep(0.01)
+        out["late_delivered_before_next"] = bool(t.late_delivered)
     nxt = Caller("queued0", op(conn, nxt_spec))          # its timeout_ops is T_BIG: it only has to wait for what the code makes it wait for
     t_n = time.time()
     nxt.start()
@@ -287,6 +310,7 @@ def async_waiter_scenario(sc):
         def __init__(self, *a, **kw):
             super().__init__(*a, **kw)
             self.delay, self.armed, self.delayed, self.closers, self.owners = None, False, False, [], []
+            self.late_timer, self.late_delivered = None, False
 
         def _me(self):
             task = asyncio.current_task()
@@ -307,7 +331,10 @@ def async_waiter_scenario(sc):
                 AsyncSimTransport.write(self, channel_input)
                 self.silent = False
                 self.delayed = True
-                asyncio.get_running_loop().call_later(self.delay, lambda: self.buf.extend(late))
+                def deliver():
+                    self.buf.extend(late)
+                    self.late_delivered = True
+                self.late_timer = asyncio.get_running_loop().call_later(self.delay, deliver)
                 self.delay = None
                 return
             AsyncSimTransport.write(self, channel_input)
@@ -389,11 +416,20 @@ def async_waiter_scenario(sc):
             out["hung"] = rep("hung", hung, t_h)
             out["at_exception"] = dict(snap) or None
             nxt_spec = ["si", "show c1o0"]
-            if not t.isalive():          # default settings: the timeout closed the connection; the user re-opens it
+            if not t.isalive():          # default settings: the timeout closed the connection; the user re-opens it (old session's answer dropped)
+                if t.late_timer is not None:
+                    t.late_timer.cancel()
                 t.silent = False
+                t.device = CliDevice("cisco_iosxe", hostname="r1", outputs=lambda mode, line: ("out<%s>" % line) if line else None)
+                t.buf.clear()
                 await t.open()
                 t.buf.clear()
                 out["reopened"] = True
+            else:
+                lim = time.time() + sc["a_delay"] + slack
+                while time.time() < lim and not t.late_delivered:
+                    await asyncio.sleep(0.01)
+                out["late_delivered_before_next"] = bool(t.late_delivered)
             t_n = time.time()
             nxt = asyncio.ensure_future(run("queued0", nxt_spec))
             nxt.set_name("queued0")
